@@ -24,19 +24,19 @@ def merge_jobs(tier, prop="C02"):
     L = 3
     for kind, kn, n in ((1, "counter", 4), (0, "register", 3 if tier == "quick" else 4)):
         js.append({"id": f"deliver.{kn}.n{n}", "func": "VerifH_C02_Deliver",
-                   "conf": {"n": n, "kind": kind, "del": -1, "deliveries": L, "hasfield": 1, "class": 2, "dag": "", "orders": "all"},
+                   "conf": {"n": n, "kind": kind, "del": -1, "deliveries": L, "hasfield": 1, "class": 2, "dag": "", "orders": "all", "shortid": 0},
                    "_obligation": "O1-O3", "_covers": ["delivered"], "unwind": 40, "_maporder_replay": True, "reset_mode": True})
     n = 3 if tier == "quick" else 4
     js.append({"id": f"deliver.counter.n{n}.delete-last", "func": "VerifH_C02_Deliver",
-               "conf": {"n": n, "kind": 1, "del": n - 1, "deliveries": L, "hasfield": 1, "class": 2, "dag": "", "orders": "all"},
+               "conf": {"n": n, "kind": 1, "del": n - 1, "deliveries": L, "hasfield": 1, "class": 2, "dag": "", "orders": "all", "shortid": 0},
                "_obligation": "O1-O3", "_covers": ["delivered"], "unwind": 40, "_maporder_replay": True, "reset_mode": True})
     for sn, dag in SHAPES.items():
         for kind, kn in ((1, "counter"),) if tier == "quick" else ((1, "counter"), (0, "register")):
             js.append({"id": f"deliver.{kn}.{sn}", "func": "VerifH_C02_Deliver",
                        "conf": {"n": 6, "kind": kind, "del": -1, "deliveries": 3 if tier == "quick" else 4, "hasfield": 1, "class": 2,
-                                "dag": dag, "orders": "two"},
+                                "dag": dag, "orders": "two", "shortid": 0},
                        "_obligation": "O1-O3", "_covers": ["delivered"], "unwind": 60, "reset_mode": True})
-    js.append({"id": "twin", "func": "VerifH_C02_Reach", "conf": {"dag": "", "orders": "all"}, "_obligation": "vacuity", "_expect": "twin", "_covers": ["end"]})
+    js.append({"id": "twin", "func": "VerifH_C02_Reach", "conf": {"dag": "", "orders": "all", "shortid": 0}, "_obligation": "vacuity", "_expect": "twin", "_covers": ["end"]})
     return js
 
 
